@@ -201,7 +201,7 @@ class options, with or without `-i`, capturing groups, `-e`; any anchors — wit
 (`Pat.minLen_le`: `Pat.minLen` is a lower bound on the length, in code points, of every string the operand denotes; the code and
 the S4 contract `ok` count *graphemes*, so for a unit of multi-code-point graphemes the pattern-level bound is the weaker of the two —
 `convertRepetitions_ok` is the statement in graphemes).  The property's last clause — raising a threshold can only turn quantified parts
-back into literal text — is a comparison of two runs and is not stated as a theorem; it is compared per input.  Chain: S4 keeps the contract at every
+back into literal text — is a comparison of two runs; its contract side is `thresholds_monotone` below, the comparison of the outputs is per input.  Chain: S4 keeps the contract at every
 nesting depth (`convertRepetitions_ok`), the widening merge of the trie keeps its range form (`okW_widen`), minimisation only drops
 edges, `union`/`concatenate`/the elimination only take literal clusters apart and put them together (`Lemmas/WFExprQ.lean`, for an
 arbitrary predicate on graphemes), and the parser reads each counted grapheme as one repetition node over its unit (`gThresh`). -/
@@ -235,5 +235,25 @@ example :
   · rintro ⟨h | ⟨n, hn, _, h2⟩, _⟩
     · exact absurd h.1 (by decide)
     · simp [Pat.minLen] at h2
+
+/-- **C13 (raising a threshold only removes quantified parts — the contract side)** the threshold contract is monotone: a pattern whose
+counted quantifiers are admissible under thresholds `(r', l')` is admissible under every lower pair `(r, l)`.  Read the other way round:
+a counted quantifier the contract admits after raising a threshold was admissible before, so raising can only take quantified parts away
+from what the contract allows.  (That the *algorithm's* output for the raised thresholds is the old output with some quantified parts
+spelled out is a comparison of two runs and is compared per input.) -/
+theorem thresholds_monotone (r l r' l' : Nat) (hr : r ≤ r') (hl : l ≤ l') : ∀ (P : Spec.Pat), Pat.Thresh r' l' P → Pat.Thresh r l P := by
+  intro P
+  induction P with
+  | rep p mn mx g ih =>
+    intro h
+    simp only [Pat.Thresh] at h ⊢
+    refine ⟨?_, ih h.2⟩
+    rcases h.1 with h1 | ⟨n, hn, hrn, hln⟩
+    · exact Or.inl h1
+    · exact Or.inr ⟨n, hn, by omega, by omega⟩
+  | cat a b iha ihb => intro h; simp only [Pat.Thresh] at h ⊢; exact ⟨iha h.1, ihb h.2⟩
+  | alt a b iha ihb => intro h; simp only [Pat.Thresh] at h ⊢; exact ⟨iha h.1, ihb h.2⟩
+  | grp c p ih => intro h; simp only [Pat.Thresh] at h ⊢; exact ih h
+  | _ => intro _; simp only [Pat.Thresh]
 
 end Grexv.Props.C13
